@@ -344,11 +344,29 @@ func buildWorker(meta *PropMeta, race bool) (string, error) {
 		args = append(args, "-race")
 		name += "-race"
 	}
+	os.MkdirAll(filepath.Join(verifRoot, ".build"), 0755)
+	repo := "/repo"
+	if alt := os.Getenv("VERIF_REPO"); alt != "" && alt != "/repo" {
+		// evaluate another checkout (seeded changes in scratch worktrees)
+		// without touching /repo: alternate go.mod with another replace path
+		repo = alt
+		tag := fmt.Sprintf("%x", splitmix(uint64(len(alt))*1315423911+hashStr(alt)))[:8]
+		name += "-alt" + tag
+		mod, err := os.ReadFile(filepath.Join(verifRoot, "sim", "go.mod"))
+		if err != nil {
+			return "", err
+		}
+		altMod := filepath.Join(verifRoot, ".build", "alt-"+tag+".mod")
+		os.WriteFile(altMod, []byte(strings.Replace(string(mod), "=> /repo", "=> "+alt, 1)), 0644)
+		if b, err := os.ReadFile(filepath.Join(alt, "go.sum")); err == nil {
+			os.WriteFile(filepath.Join(verifRoot, ".build", "alt-"+tag+".sum"), b, 0644)
+		}
+		args = append(args, "-modfile", altMod)
+	}
 	out := filepath.Join(verifRoot, ".build", name+".test")
 	args = append(args, "-o", out, "./worker")
-	os.MkdirAll(filepath.Join(verifRoot, ".build"), 0755)
 	// go.sum of the harness module follows the repository's
-	if b, err := os.ReadFile("/repo/go.sum"); err == nil {
+	if b, err := os.ReadFile(filepath.Join(repo, "go.sum")); err == nil && repo == "/repo" {
 		os.WriteFile(filepath.Join(verifRoot, "sim", "go.sum"), b, 0644)
 	}
 	o, err := sh(filepath.Join(verifRoot, "sim"), nil, "go", args...)
@@ -359,6 +377,15 @@ func buildWorker(meta *PropMeta, race bool) (string, error) {
 }
 
 // ---- main ------------------------------------------------------------------------
+
+func hashStr(s string) uint64 {
+	h := uint64(1469598103934665603)
+	for i := 0; i < len(s); i++ {
+		h ^= uint64(s[i])
+		h *= 1099511628211
+	}
+	return h
+}
 
 func splitmix(x uint64) uint64 {
 	x += 0x9e3779b97f4a7c15
@@ -544,7 +571,7 @@ func cmdRun(prop string, args []string) int {
 	next := 0
 	corpus := loadCorpus(prop)
 	tc.Runs += len(corpus)
-	deadline := start.Add(tc.Budget)
+	deadline := time.Now().Add(tc.Budget) // the budget covers the runs, not the build
 	stop := false
 	var wg sync.WaitGroup
 	nw := o.workers
